@@ -415,9 +415,9 @@ func TestVerif_C22(t *testing.T) {
 		free    bool
 		bound   int
 	}
-	// quick: every configuration with <= 1 deviation, the 2-worker pool with <= 2;
+	// quick: every pool size with <= 2 deviations;
 	// thorough: <= 3 deviations (delay bounding) and <= 2 preemptions (CHESS bounding)
-	cfgs := []cfg{{1, false, 1}, {2, false, 2}, {32, false, 1}}
+	cfgs := []cfg{{1, false, 2}, {2, false, 2}, {32, false, 2}}
 	if r.Thorough() {
 		cfgs = []cfg{{1, false, 3}, {2, false, 3}, {32, false, 3}, {2, true, 2}, {32, true, 2}}
 	}
